@@ -480,6 +480,10 @@ func (c *FnCtx) staticCall(fr *Frame, st *State, x *ssa.Call, callee *ssa.Functi
 		fr.regs[x] = c.quantifier(fr, st, callee.Name() == "verifForall", fr.val(cc.Args[0]).(*Term), fr.val(cc.Args[1]))
 		return
 	}
+	if callee.Pkg == c.eng.ld.SSA && (callee.Name() == "verifSumKeys" || callee.Name() == "verifSumVisited") && c.eng.isGhostFn(callee) {
+		fr.regs[x] = c.sumIntrinsic(fr, st, callee.Name(), cc)
+		return
+	}
 	if callee.Pkg == c.eng.ld.SSA && callee.Name() == "verifForallKeys" && c.eng.isGhostFn(callee) {
 		fr.regs[x] = c.quantifierKeys(fr, st, cc.Args[0].Type(), fr.val(cc.Args[0]).(*Term), fr.val(cc.Args[1]))
 		return
@@ -816,6 +820,79 @@ func (c *FnCtx) builtin(fr *Frame, st *State, x *ssa.Call, b *ssa.Builtin) {
 func (c *FnCtx) inlineClosure(st *State, fn *ssa.Function, args []*Term, bindings []SymVal) []*Term {
 	c.pendingBindings = bindings
 	return c.inline(st, fn, args, true)
+}
+
+// sumIntrinsic: sums over the entries of a map, independent of the iteration order.
+//   verifSumKeys(m, f, x, y)        = sum of f(k, m[k], x, y) over all keys k of m
+//   verifSumVisited(loop, f, x, y)  = the same sum over the keys the loop-th range loop has delivered so far
+// Both are the uninterpreted  psum!f(heaps, x, y, m, S)  for a key set S (the domain, resp. the ghost visited set); the
+// defining equations are instantiated on the shape of S: the empty set gives 0, adding a key k that is not in the set
+// adds f(k, m[k], x, y). On exhaustion of the range the visited set equals the domain (iteration model), so the two
+// coincide. f must be a named top-level function (its name identifies the sum).
+func (c *FnCtx) sumIntrinsic(fr *Frame, st *State, name string, cc *ssa.CallCommon) *Term {
+	mt := types.NewMap(types.Typ[types.String], types.NewInterfaceType(nil, nil))
+	mh := c.mapHeaps(st, mt)
+	var m, set *Term
+	fi := 1
+	if name == "verifSumKeys" {
+		m = fr.val(cc.Args[0]).(*Term)
+		set = c.hget(st, mh.dom, mh.sdom, m)
+	} else {
+		k, ok := fr.val(cc.Args[0]).(*Term).IntLit()
+		if !ok || c.curFrame == nil || c.curFrame.iterByLoop[int(k)] == nil {
+			unsupported("verifSumVisited: no map-range loop #%v known at this point", fr.val(cc.Args[0]))
+		}
+		it := c.curFrame.iterByLoop[int(k)]
+		m = it.m
+		set = c.getCell(st, it.visited)
+	}
+	f, ok := fr.val(cc.Args[fi]).(*FuncVal)
+	if !ok || f.fn == nil || len(f.bindings) > 0 {
+		unsupported("%s: the summand must be a named top-level function", name)
+	}
+	x := c.toTerm(st, fr.val(cc.Args[fi+1]), cc.Args[fi+1].Type())
+	y := c.toTerm(st, fr.val(cc.Args[fi+2]), cc.Args[fi+2].Type())
+	c.trusted["sums over the entries of a map (verifSumKeys / verifSumVisited) do not depend on the iteration order; defined by: empty set 0, adding an unvisited key adds its summand"] = true
+	return c.psum(st, f.fn, x, y, m, set, 0)
+}
+
+func (c *FnCtx) psum(st *State, fn *ssa.Function, x, y, m, set *Term, depth int) *Term {
+	ts := c.eng.ts
+	if set.kind == kApp && set.op == "ite" && depth < 6 {
+		return ts.Ite(set.args[0], c.psum(st, fn, x, y, m, set.args[1], depth+1), c.psum(st, fn, x, y, m, set.args[2], depth+1))
+	}
+	mt := types.NewMap(types.Typ[types.String], types.NewInterfaceType(nil, nil))
+	mh := c.mapHeaps(st, mt)
+	hd, hs, hl := c.heap(st, mh.dom, mh.sdom), c.heap(st, mh.sel, mh.ssel), c.heap(st, mh.ln, mh.sln)
+	t := ts.UF("psum!"+fn.Name(), SInt, hd, hs, hl, x, y, m, set)
+	if c.specSeen == nil {
+		c.specSeen = map[string]bool{}
+		c.specDepth = map[*ssa.Function]int{}
+	}
+	key := fmt.Sprintf("psum@%d", t.id)
+	if c.specSeen[key] || len(ts.FreeBoundVars(t)) > 0 {
+		return t
+	}
+	c.specSeen[key] = true
+	neutral := &State{pc: ts.Bool(true)}
+	switch {
+	case set.kind == kApp && strings.HasPrefix(set.op, "(as const") && len(set.args) == 1 && set.args[0].IsFalse():
+		c.addFactT(neutral, t, ts.Eq(t, ts.Int(0)))
+	case set.kind == kApp && set.op == "store" && set.args[2].IsTrue() && depth < 6:
+		s0, k := set.args[0], set.args[1]
+		rest := c.psum(st, fn, x, y, m, s0, depth+1)
+		work := st.clone()
+		work.pc = ts.Bool(true)
+		v := ts.Select(ts.Select(hs, m), k)
+		saved := c.curTag
+		c.curTag = 2
+		c.noObl++
+		fv := c.inline(work, fn, []*Term{k, v, x, y}, true)
+		c.noObl--
+		c.curTag = saved
+		c.addFactT(neutral, t, ts.Eq(t, ts.Add(rest, ts.Ite(ts.Select(s0, k), ts.Int(0), fv[0]))))
+	}
+	return t
 }
 
 // quantifier: verifForall(n, func(i int) bool { ... })  ==  forall i. 0 <= i < n  =>  body(i)
